@@ -234,9 +234,10 @@ func HarnessC18NoStatePairs() {
 	hasBound := func(q string) bool {
 		return strings.Contains(q, " before ") || strings.Contains(q, " after ") || strings.Contains(q, " between ")
 	}
+	text1 := c18Corpus[i]
 	switch {
 	case err1 != nil:
-		verif.Class("after-a-rejected-statement")
+		verif.Class(rejectedClass(text1))
 	case strings.Contains(c18Corpus[i], " between ") && hasBound(c18Corpus[j]):
 		// known: collectGlobalBounds keeps its last token after a BETWEEN bound
 		verif.Class("global-time-bound-after-an-accepted-BETWEEN")
@@ -282,7 +283,7 @@ func HarnessC18NoState() {
 	fresh, ferr := parseText(grammar.SemanticBQL(), text2)
 	verif.Reach("parsed")
 	if err1 != nil {
-		verif.Class("after-a-rejected-statement")
+		verif.Class(rejectedClass(text1))
 	} else {
 		verif.Class("after-an-accepted-statement")
 	}
@@ -301,6 +302,19 @@ func inspected(toks []lexer.Token, llk *grammar.LLk, err error) []lexer.Token {
 		k++
 	}
 	return toks[:k]
+}
+
+// rejectedClass names the witness class of a counterexample that follows a
+// rejected first statement.  With DBG=2 the class is the statement itself, which
+// is how the list of statements known to leave hook state behind was drawn up.
+func rejectedClass(text1 string) string {
+	if verif.Param("DBG", 0) == 2 {
+		return "rej:" + text1
+	}
+	if c18KnownLeaks[text1] {
+		return "after-a-rejected-statement"
+	}
+	return "after-a-rejected-statement-not-known-to-leave-state"
 }
 
 // semanticWitness renders the witness sentence toks (which takes alternative ai
@@ -376,7 +390,7 @@ func HarnessC18NoStateWitness() {
 	}
 	switch {
 	case err1 != nil:
-		verif.Class("after-a-rejected-statement")
+		verif.Class(rejectedClass(text1))
 	case strings.Contains(text1, " between ") && hasBound(text2):
 		verif.Class("global-time-bound-after-an-accepted-BETWEEN")
 	case strings.Contains(text1, " at }") || strings.Contains(text1, " at ."):
@@ -404,4 +418,16 @@ func HarnessC18NoStateWitness() {
 		verif.Assert(fingerprint(st2) == fingerprint(fresh), "C18/nostate/same-meaning")
 	}
 	verif.Class("")
+}
+
+// c18KnownLeaks: the rejected first statements after which, on the pinned tree,
+// the hooks of SemanticBQL() are known to keep closure state (recorded finding
+// C18/nostate/*#after-a-rejected-statement).  Any other rejected statement that
+// changes the verdict or meaning of the next one is reported.
+var c18KnownLeaks = map[string]bool{
+	// a data statement cut after the subject of a further triple: dataAccumulator keeps the partial triple
+	`insert data into ?g { /u<a> "p"@[] /u<b> . /u<a>`: true,
+	// a predicate bound followed by AT whose bindings are cut short by the rejection: the predicate hook keeps waiting
+	`select ?x from ?x where { /u<a> "p"@[2006-01-02T15:04:05Z,2007-01-02T15:04:05Z] at "1"^^type:int64 } ;`:         true,
+	`select ?x from ?x where { /u<a> "p"@[2006-01-02T15:04:05Z,2007-01-02T15:04:05Z] at ?x , ?x "1"^^type:int64 } ;`: true,
 }
